@@ -144,3 +144,38 @@ pub fn intfn_line(l: &str) -> String {
         Err(_) => "err panic".into(),
     }
 }
+
+fn unpack(s: &str) -> Option<String> {
+    if s == "_" { return Some(String::new()); }
+    if s.len() % 2 != 0 { return None; }
+    let b: Option<Vec<u8>> = (0..s.len()).step_by(2).map(|i| u8::from_str_radix(&s[i..i + 2], 16).ok()).collect();
+    String::from_utf8(b?).ok()
+}
+
+fn pack(s: &str) -> String {
+    if s.is_empty() { return "_".into(); }
+    s.bytes().map(|b| format!("{b:02x}")).collect()
+}
+
+/// Stream `evalhex`: packed-hex expressions separated by `,`, evaluated left to right in ONE context with the
+/// settings the CLI uses by default; stops at the first error like the CLI does. Output per expression:
+/// `O:<emptyOrUnit>:<trailingNewline>:<text>` or `X:<msg>`.
+pub fn evalhex_line(l: &str) -> String {
+    let mut c = fend_core::Context::new();
+    c.set_random_u32_fn(|| 4);
+    c.set_output_mode_terminal();
+    let int = Counting::never();
+    let mut outs = Vec::new();
+    for e in l.trim().split(',') {
+        let Some(src) = unpack(e) else { return "bad-op".into() };
+        match guarded(|| fend_core::evaluate_with_interrupt(&src, &mut c, &int)) {
+            Ok(Ok(v)) => {
+                let empty = v.get_main_result_spans().next().is_none() || v.is_unit_type();
+                outs.push(format!("O:{}:{}:{}", u8::from(empty), u8::from(v.has_trailing_newline()), pack(v.get_main_result())));
+            }
+            Ok(Err(e)) => { outs.push(format!("X:{}", pack(&e))); break; }
+            Err(p) => { outs.push(format!("X:{}", pack(&format!("panic {p}")))); break; }
+        }
+    }
+    outs.join(",")
+}
